@@ -134,3 +134,10 @@ Proof.
   - apply TX_arr. assumption.
   - apply TX_obj. assumption.
 Qed.
+
+(** non-vacuity: a value with a control character, a quote, a non-BMP character and a negative number *)
+Example json_writer_ascii_example :
+  nonneg_strings (JArr [JStr [1; 34; 128512; 233]; JInt (-12)]) /\
+  jwrite (JArr [JStr [1; 34; 128512; 233]; JInt (-12)]) =
+    Some [91; 34; 92;117;48;48;48;49; 92;34; 92;117;68;56;51;68; 92;117;68;69;48;48; 92;117;48;48;69;57; 34; 44; 45;49;50; 93].
+Proof. split; [cbn; repeat split; repeat (first [apply Forall_nil | apply Forall_cons]); lia | vm_compute; reflexivity]. Qed.
